@@ -117,8 +117,12 @@ def session_full_runs(ctx, viol, dist):
                 k = rng.randrange(len(spec['grammar']))
                 spec['grammar'].insert(k, list(spec['grammar'][k]))        # the same line twice
         d = common.write_ruleset(os.path.join(root, f"c02sess{i % 3}"), spec)
-        pcfg = common.load_grammar(d)
-        units = ss.units_of(pcfg)
+        try:
+            pcfg = common.load_grammar(d)
+            units = ss.units_of(pcfg)
+        except Exception as e:
+            viol.append({'property': 'C02', 'kind': 'implementation-raised', 'error': repr(e)[:200], 'witness': {'spec': spec, 'flags': {'skip_brute': False, 'skip_case': False}}})
+            continue
         if not (1 <= len(units) <= 120):
             continue
         want = Counter(l for u in units for l in u[2])
